@@ -185,15 +185,22 @@ CLAIMED = {
              "mechanism is total exactly outside the recorded error sites (c06_step_total, c06_path_total, c06_expr_total). "
              "The equality carries one hypothesis, DocTypeOk: no step applies a node-type test other than node() to the "
              "document node - that is the open finding document-node-type-tests, kept as a proved counterexample. The VALUE "
-             "semantics of predicate expressions is the mechanism's (the spec takes it as given): the findings about "
-             "attribute comparisons, not()/boolean() and number-valued predicates live there, so the full statement 'equals "
-             "XPath 1.0' stays partial. Tie to code: result handle lists (order included) of the real xpath() "
+             "semantics of predicates is specified separately (Model/XPath/PredSpec.lean: XPath 1.0 sections 3.4/4 over "
+             "node-set-of-attribute / string / number / boolean values, independent of the mechanism's value type) and proved "
+             "equal to the mechanism exactly on the fragment PredSafe, whose eight decidable conditions each name one "
+             "deviation (c06_pred_eq_xpath1_partial, c06_predHolds_eq_xpath1_partial, lifted to steps: "
+             "c06_step_eq_xpath1_partial); outside it the statement is false, with one proved counterexample per condition "
+             "(c06_pred_deviation_*): the four recorded value findings and two that the proof turned up (and/or over "
+             "non-boolean operands, a boolean compared with a non-boolean - both confirmed against lxml and recorded as open "
+             "findings). So 'equals XPath 1.0' is a theorem on the safe fragment and stays partial beyond it. Tie to code: result handle lists (order included) of the real xpath() "
              "== compiled model for grammar-generated expressions x documents x context nodes x prefix maps; a safe "
              "sub-grammar is additionally compared with lxml's XPath engine; CSS selectors vs the cssselect translation "
              "evaluated by lxml.",
         note=TB + "Reference engine: lxml/libxml2. Known findings (attribute comparison of absent/empty attributes, "
              "non-literal number predicates, `..`/axes from the document node, node-type tests on the document node, "
-             "attribute functions on non-tag candidates) are excluded from the generated stream and replayed separately.",
+             "attribute functions on non-tag candidates, and/or over non-boolean operands, booleans compared with "
+             "non-booleans) are excluded from the generated stream and replayed separately. predSpec leaves comparisons that "
+             "need number() of a string (and concat/text) undefined; the theorem speaks about predicates it defines.",
         technique="Lean 4 theorems on the evaluator model (axes, proximity positions, union/dedup, ordering; equality with a declarative XPath 1.0 location-path semantics) + differential correspondence + lxml as reference oracle",
         design="3/C06",
     ),
